@@ -1137,7 +1137,8 @@ func (r *multiCIDRRangeAllocator) reconcileBootstrap(ctx context.Context, cluste
 	defer r.lock.Unlock()
 
 	logger := klog.FromContext(ctx)
-	terminating := false
+	// A ClusterCIDR that is being deleted must not be used for new allocations.
+	terminating := !clusterCIDR.DeletionTimestamp.IsZero()
 	// Create the ClusterCIDR only if the Spec has not been modified.
 	if clusterCIDR.Generation > 1 {
 		terminating = true
